@@ -41,6 +41,13 @@ structure DT where
   tz : Option Int
   deriving DecidableEq, Repr, Inhabited
 
+/-- decidable equality of results, so that concrete instances can be checked by `decide` -/
+instance instDecEqExcept {ε α : Type} [DecidableEq ε] [DecidableEq α] : DecidableEq (Except ε α)
+  | .ok a, .ok b => if h : a = b then isTrue (by rw [h]) else isFalse (by intro e; cases e; exact h rfl)
+  | .error a, .error b => if h : a = b then isTrue (by rw [h]) else isFalse (by intro e; cases e; exact h rfl)
+  | .ok _, .error _ => isFalse (by intro e; cases e)
+  | .error _, .ok _ => isFalse (by intro e; cases e)
+
 /-! ### helpers.py -/
 
 /-- `calendar.isleap` -/
@@ -224,41 +231,53 @@ def todelta (v : DT) : Except Err Int :=
     let delta := (v.day - 1) * US + v.us - off
     tdNorm (days * US + delta)
 
-/-- `fromdelta(delta)` (datetime.py:463-534 with the BCE-1st-of-January fix), `isDate` selects the
-`issubclass(cls, Date)` tail without `adjust_timezone`.  The result has no timezone. -/
-def fromdelta (isDate : Bool) (delta : Int) : Except Err DT :=
-  let build (year m d us : Int) : Except Err DT :=
-    if isDate then mk year m d 0 0 0 0 none else mkUs year m d us none
-  match pyOfOrdUs (US + delta) with            -- `_REF_DATETIME + delta`
-  | .ok (y, m, d, us) => build y m d us
-  | .error _ =>                                -- `except OverflowError:`
-    let days := delta / US
-    let rem := delta % US                      -- delta.seconds, delta.microseconds
-    if days > 0 then
-      let (y400, y100, y4, y1, r) := cascade days
-      let year := y400 * 400 + y100 * 100 + y4 * 4 + y1 + 1
-      let (year, r) := if y1 = 4 ∨ y100 = 4 then (year - 1, 365) else (year, r)
-      match pyOfOrdUs (pyOrdUs (if isleap year then 4 else 6) 1 1 0 + (r * US + rem)) with
-      | .ok (_, m, d, us) => build year m d us
-      | .error e => .error e
-    else if days ≥ -366 then
-      match pyOfOrdUs (pyOrdUs 5 1 1 0 + (days * US + rem)) with
-      | .ok (_, m, d, us) => build (-1) m d us
-      | .error e => .error e
+/-- year number assembled from the four quotients of `cascade`:
+`y400 * 400 + y100 * 100 + y4 * 4 + y1 + 1` (datetime.py `fromdelta`, also CPython `_ord2ymd`) -/
+def cascYear (c : Int × Int × Int × Int × Int) : Int :=
+  c.1 * 400 + c.2.1 * 100 + c.2.2.1 * 4 + c.2.2.2.1 + 1
+
+/-- `if y1 == 4 or y100 == 4` -/
+def cascLast (c : Int × Int × Int × Int × Int) : Bool := c.2.2.2.1 == 4 || c.2.1 == 4
+
+/-- `datetime.datetime(p, 1, 1) + datetime.timedelta(µs = off)`: (month, day, µs of the day) of the sum -/
+def proxyPlus (p off : Int) : Except Err (Int × Int × Int) :=
+  match pyOfOrdUs (pyOrdUs p 1 1 0 + off) with
+  | .ok (_, m, d, us) => .ok (m, d, us)
+  | .error e => .error e
+
+/-- the tail of `fromdelta`: `cls(year, dt.month, dt.day)` for `Date` classes, else
+`cls(year, dt.month, dt.day, dt.hour, dt.minute, dt.second, dt.microsecond, dt.tzinfo)` -/
+def fromdeltaBuild (isDate : Bool) (year : Int) : Except Err (Int × Int × Int) → Except Err DT
+  | .ok (m, d, us) => if isDate then mk year m d 0 0 0 0 none else mkUs year m d us none
+  | .error e => .error e
+
+/-- the `except OverflowError:` part of `fromdelta` (datetime.py:476-516 with the BCE-1st-of-January
+fix): `days = delta.days`, `rem` = `delta.seconds`/`delta.microseconds` in µs -/
+def fromdeltaOut (isDate : Bool) (days rem : Int) : Except Err DT :=
+  if days > 0 then
+    let c := cascade days
+    let year := if cascLast c then cascYear c - 1 else cascYear c
+    let r := if cascLast c then 365 else c.2.2.2.2
+    fromdeltaBuild isDate year (proxyPlus (if isleap year then 4 else 6) (r * US + rem))
+  else if days ≥ -366 then
+    fromdeltaBuild isDate (-1) (proxyPlus 5 (days * US + rem))
+  else
+    let c := cascade (-days - 366)
+    -- `year = -y400 * 400 - y100 * 100 - y4 * 4 - y1 - 2`
+    let year0 := -c.1 * 400 - c.2.1 * 100 - c.2.2.1 * 4 - c.2.2.2.1 - 2
+    let year := if cascLast c then year0 + 1 else year0
+    let r := if cascLast c then 365 else c.2.2.2.2
+    if r = 0 then
+      fromdeltaBuild isDate (year + 1) (proxyPlus (if isleap (year + 1 + 1) then 4 else 6) rem)
     else
-      let days := -days - 366
-      let (y400, y100, y4, y1, r) := cascade days
-      let year := -y400 * 400 - y100 * 100 - y4 * 4 - y1 - 2
-      let (year, r) := if y1 = 4 ∨ y100 = 4 then (year + 1, 365) else (year, r)
-      if r = 0 then
-        let year := year + 1
-        match pyOfOrdUs (pyOrdUs (if isleap (year + 1) then 4 else 6) 1 1 0 + rem) with
-        | .ok (_, m, d, us) => build year m d us
-        | .error e => .error e
-      else
-        match pyOfOrdUs (pyOrdUs (if isleap (year + 1) then 5 else 7) 1 1 0 + (-r * US + rem)) with
-        | .ok (_, m, d, us) => build year m d us
-        | .error e => .error e
+      fromdeltaBuild isDate year (proxyPlus (if isleap (year + 1) then 5 else 7) (-r * US + rem))
+
+/-- `fromdelta(delta)` (datetime.py:463-534), `isDate` selects the `issubclass(cls, Date)` tail
+(without `adjust_timezone`).  The result has no timezone. -/
+def fromdelta (isDate : Bool) (delta : Int) : Except Err DT :=
+  match pyOfOrdUs (US + delta) with            -- `_REF_DATETIME + delta`
+  | .ok (y, m, d, us) => fromdeltaBuild isDate y (.ok (m, d, us))
+  | .error _ => fromdeltaOut isDate (delta / US) (delta % US)   -- `except OverflowError:`
 
 /-- key of the proxy datetime used by Python's `datetime` comparison and subtraction
 (naive operands are given UTC by `_compare` / `get_comparable_datetimes`) -/
@@ -333,6 +352,23 @@ def adjustDateTime (a : DT) (tz : Option Int) : Except Err DT :=
     let v ← fromdelta false delta
     pure { v with tz := some z }
   | _, _ => .ok { a with tz := tz }
+
+/-! ### lexical year numbering -/
+
+/-- `fromstring`: the year field (datetime.py:418-431).  XSD 1.0: `0000` is illegal, `-0001` is 1 BCE and
+is stored as `-1`; XSD 1.1: `0000` is 1 BCE, so years ≤ 0 are shifted down by one -/
+def lexYear (v11 : Bool) (n : Int) : Except Err Int :=
+  if v11 then .ok (if n ≤ 0 then n - 1 else n) else if n = 0 then .error .value else .ok n
+
+/-- the number printed by `iso_year` (datetime.py:336-347 with the long-BCE-year fix) -/
+def isoYear (v11 : Bool) (y : Int) : Int :=
+  if -9999 ≤ y ∧ y < -1 then (if v11 then y + 1 else y)
+  else if y = -1 then (if v11 then 0 else -1)
+  else if 0 ≤ y ∧ y ≤ 9999 then y
+  else if y > 0 ∨ v11 = false then y else y + 1
+
+/-- `fn:year-from-dateTime` / `fn:year-from-date` (_xpath2_functions.py:1264, 1309 with the XSD 1.1 fix) -/
+def yearFrom (v11 : Bool) (y : Int) : Int := if y < 0 ∧ v11 = true then y + 1 else y
 
 /-! ### durations -/
 
